@@ -925,14 +925,14 @@ class ChainedVisitor(ASTVisitor):
     def __init__(self, *visitors: ASTVisitor):
         self.visitors = tuple(visitors)
 
-    def enter(self, node: N) -> N:
+    def enter(self, node: N) -> Optional[N]:
         cur = node  # type: Optional[N]
         for v in self.visitors:
             if cur is None:
                 break
             cur = v.enter(cur)
 
-        return node
+        return cur
 
     def leave(self, node: N) -> None:
         for v in self.visitors[::-1]:
